@@ -186,8 +186,20 @@ pub fn run_neigh(case: &serde_json::Value, out: &mut String) {
                 }
                 // dump an evenly spread sample of the candidates plus the picked one
                 // a pick is an index (mod the number of candidates) or a text the candidate's description must contain
+                // "pat|n": the n-th (mod count) candidate whose description contains pat; without a match, candidate n
                 let k = match pick.as_str() {
-                    Some(pat) => c.iter().position(|x| x.get_print_text().replace(' ', "_").contains(pat)).unwrap_or(0),
+                    Some(spec) => {
+                        let mut it = spec.splitn(2, '|');
+                        let pat = it.next().unwrap();
+                        let n: usize = it.next().and_then(|x| x.parse().ok()).unwrap_or(0);
+                        let hits: Vec<usize> = c
+                            .iter()
+                            .enumerate()
+                            .filter(|(_, x)| x.get_print_text().replace(' ', "_").contains(pat))
+                            .map(|(i, _)| i)
+                            .collect();
+                        if hits.is_empty() { n % c.len() } else { hits[n % hits.len()] }
+                    }
                     None => (pick.as_u64().unwrap() as usize) % c.len(),
                 };
                 writeln!(out, "#pick {} {} {}", d, k, c[k].get_print_text().replace(' ', "_")).unwrap();
